@@ -39,6 +39,10 @@ class Ctx:
         if os.path.exists(self.scratch):
             shutil.rmtree(self.scratch)
         os.makedirs(self.scratch)
+        # everything a child leaves in its temp dir (the repository's own code creates
+        # raft-storage-* engine directories in os.TempDir()) lands in the scratch directory and
+        # goes away with it - nothing a check does stays behind in /tmp
+        os.environ["TMPDIR"] = self.sub("tmp")
         self.violations = []      # list of dicts (printed as VIOLATION)
         self.known = []           # list of (finding id, text)
         self.notes = []           # free text collected into the evidence
